@@ -21,7 +21,7 @@ Section ChaseProofs.
   Notation collect := (collect name fold name_eqb lookup qtype).
   Notation compose_answers := (compose_answers name).
   Notation msg_hit := (msg_hit name fold name_eqb lookup qtype cd ns_dup).
-  Notation scan := (scan name name_eqb qtype).
+  Notation scan := (scan name fold name_eqb qtype).
   Notation stamp := (stamp name).
 
   Lemma name_eqb_false a b : a <> b -> name_eqb a b = false.
@@ -37,7 +37,7 @@ Section ChaseProofs.
      question ends at the last alias target *)
   Lemma scan_target qn rs : forall t,
     has_qtype rs = false ->
-    (forall r, In r rs -> r_type name r = TypeCNAME -> r_target name r <> qn) ->
+    (forall r, In r rs -> r_type name r = TypeCNAME -> fold (r_target name r) <> fold qn) ->
     scan qn rs t = ScanTarget name (fold_left (fun acc r => if r_type name r =? TypeCNAME then Some (r_target name r) else acc) rs t).
   Proof.
     induction rs as [|r rs IH]; intros t Hq Hc; [reflexivity|].
@@ -50,7 +50,7 @@ Section ChaseProofs.
 
   Lemma scan_found qn rs : forall t,
     has_qtype rs = true ->
-    (forall r, In r rs -> r_type name r = TypeCNAME -> r_target name r <> qn) ->
+    (forall r, In r rs -> r_type name r = TypeCNAME -> fold (r_target name r) <> fold qn) ->
     scan qn rs t = ScanFound name.
   Proof.
     induction rs as [|r rs IH]; intros t Hq Hc; [discriminate|].
@@ -60,6 +60,26 @@ Section ChaseProofs.
     - rewrite name_eqb_false by (apply Hc; [now left|now apply N.eqb_eq]).
       apply IH; [assumption|]. intros r' Hin. apply Hc. now right.
     - apply IH; [assumption|]. intros r' Hin. apply Hc. now right.
+  Qed.
+
+  (* what the (repaired, a4faf69) admission path lets in: the miss path runs additionalAnswer on the
+     upstream answer before storing it and files a SERVFAIL in the failure cache instead of a positive
+     entry; so a stored alias-only answer (no record of the asked type) holds no alias record that points,
+     in ANY spelling, at the name it is keyed under - the own-name part of [acyclic]'s head condition for
+     every non-terminal segment.  (For a terminal segment the scan stops at the first record of the asked
+     type, and names asked EARLIER in a chain are the walk's business: both stay in the premise.) *)
+  Lemma admitted_alias_only_not_self qn rs : forall t,
+    has_qtype rs = false -> scan qn rs t <> ScanServfail name ->
+    forall r, In r rs -> r_type name r = TypeCNAME -> fold (r_target name r) <> fold qn.
+  Proof.
+    induction rs as [|r0 rs IH]; intros t Hq Hs r Hin Hc; [contradiction|].
+    cbn in Hq. apply orb_false_iff in Hq as [Hq1 Hq2]. cbn [Chase.scan] in Hs. rewrite Hq1 in Hs.
+    destruct (r_type name r0 =? TypeCNAME) eqn:C.
+    - destruct (name_eqb (fold (r_target name r0)) (fold qn)) eqn:E; [contradiction Hs; reflexivity|].
+      destruct Hin as [<-|Hin].
+      + intro X. rewrite X in E. assert (name_eqb (fold qn) (fold qn) = true) by now apply name_eqb_spec. congruence.
+      + eapply IH; eauto.
+    - destruct Hin as [<-|Hin]; [apply N.eqb_eq in Hc; congruence|]. eapply IH; eauto.
   Qed.
 
   Lemma fold_cname_stamp ttl rs : forall t,
@@ -79,8 +99,8 @@ Section ChaseProofs.
     - right. exists r'. repeat split; [now right|assumption|assumption].
   Qed.
 
-  (* no alias record of the chain points (in exact spelling) at a name already asked at or before its
-     segment.  collectWireChase itself guarantees this for the alias each segment continues with, under
+  (* no alias record of the chain points (under case folding, as both paths now compare: a4faf69) at a
+     name already asked at or before its segment.  collectWireChase itself guarantees this for the alias each segment continues with, under
      case folding (question-name check and visited keys); for the other alias records of a segment - an
      earlier CNAME of the same section, the CNAMEs of a terminal segment - only the decoded path looks
      (it answers SERVFAIL), the composer does not. *)
@@ -88,7 +108,7 @@ Section ChaseProofs.
     match segs with
     | [] => True
     | (n, e) :: rest =>
-        (forall r, In r (compose_answers (map snd segs)) -> r_type name r = TypeCNAME -> r_target name r <> n) /\ acyclic rest
+        (forall r, In r (compose_answers (map snd segs)) -> r_type name r = TypeCNAME -> fold (r_target name r) <> fold n) /\ acyclic rest
     end.
 
   Lemma collect_head b : forall q n e vis segs, collect b q n e vis = Some segs ->
@@ -178,7 +198,7 @@ Section ChaseProofs.
       assert (NE : is_nil A' = false) by (destruct A'; [discriminate HQ|reflexivity]).
       rewrite NE. cbn [negb orb andb is_nil N.eqb]. unfold merge_ns. cbn [fold_left].
       rewrite HQ. cbn [negb]. rewrite andb_false_r.
-      assert (T1 : match Chase.last_cname name A' with Some x => name_eqb x n | None => false end = false).
+      assert (T1 : match Chase.last_cname name A' with Some x => name_eqb (fold x) (fold n) | None => false end = false).
       { destruct (Chase.last_cname name A') as [x|] eqn:LX; [|reflexivity].
         apply name_eqb_false. unfold Chase.last_cname in LX. apply fold_cname_in in LX as [LX|(r & Hin & Ht & Hx)]; [discriminate|].
         subst x. apply AC0; [apply in_or_app; now right|assumption]. }
@@ -222,7 +242,8 @@ Example ex_chase_due_hop_declines :
   wire_chase N (fun n => n) N.eqb (ex_store true) 1 false 1 ex_alias = None.
 Proof. reflexivity. Qed.
 
-(* the acyclicity premise is necessary IN THE MODEL: a terminal segment that also carries an alias
+(* the acyclicity premise is necessary IN THE MODEL (the store below is not reachable through admission:
+   replayed on the Go code, the miss path refuses such an answer - see NOTES.md): a terminal segment that also carries an alias
    record pointing back at the name it was asked under is composed by the byte path, while the decoded
    path's scan answers SERVFAIL for that hop (the outer chase then takes its error branch) *)
 Definition ex_store_back (n : N) : option (centry N) :=
